@@ -15,7 +15,8 @@ META = {
              "or datetime64 'time' axes; targets inside / outside both ends / exactly on nodes and end points, "
              "scalar or array; NaN patterns (whole node slices, scattered elements); linear and nearest; "
              "two-coordinate grid interpolation; 1D and 2D spectra in time and frequency. Non-trivial = >= 1 "
-             "target strictly between two nodes whose values differ; distinct = sha1 of the case."),
+             "target strictly between two nodes whose values differ; distinct = sha1 of the case."
+             " Targets include points 1e-7..1e-10 of the span inside or outside an end node."),
     "assumptions": [
         "reference: independent bracket search + weights; value=(1-t)v0+t v1 within 1e-12*(|v0|+|v1|); node targets must equal the node data exactly",
         "NaN rule: valid weight W of non-missing neighbours, result = renormalised value if W>1/2 else NaN; for scattered NaNs either the node-wise reading (a neighbour is missing if any element of its slice is NaN - what the code does) or the element-wise reading is accepted",
@@ -64,15 +65,13 @@ def targets_for(draw, xp, kind, max_targets=8):
     for _ in range(n):
         c = draw(st.sampled_from(["inside", "inside", "inside", "node", "end", "below", "above", "mid", "near_end"]))
         if c == "near_end" and kind != "time":
-            # a hair inside or outside an end node (an ulp, or 1e-7 .. 1e-10 of the span): still inside / already outside
+            # a hair inside or outside an end node (1e-7 .. 1e-10 of the span): still inside / already outside
             e_ = draw(st.sampled_from([lo, hi]))
-            how = draw(st.sampled_from(["ulp_down", "ulp_up", "span_down", "span_up"]))
-            if how == "ulp_down":
-                v = float(np.nextafter(e_, -np.inf))
-            elif how == "ulp_up":
-                v = float(np.nextafter(e_, np.inf))
-            else:
-                v = float(e_ + (1 if how == "span_up" else -1) * (hi - lo) * draw(st.sampled_from([1e-7, 1e-9, 1e-10])))
+            # (not a single ulp: for a descending grid the library works in the frame x0 - x, in which an ulp of a small
+            # coordinate is below the rounding of the difference - which side of the node such a target is on is not
+            # decidable in floating point; 1e-10 of the span is, in either frame)
+            how = draw(st.sampled_from(["span_down", "span_up"]))
+            v = float(e_ + (1 if how == "span_up" else -1) * (hi - lo) * draw(st.sampled_from([1e-7, 1e-9, 1e-10])))
         elif c == "near_end":
             v = draw(st.sampled_from([lo - 1, lo + 1, hi - 1, hi + 1]))
         elif c == "node":
